@@ -8,7 +8,7 @@ the bytes the model predicts; the independent Lean reader `TiffRead.readTiff` (t
 the theorems) is run on the real files; and `tiff_oracle` below — plain Python, knows nothing
 of the model — checks the text of the property on the real files.
 """
-import json, os, re, struct
+import json, os, re, shutil
 from . import common as C
 
 MODULE = "AcqVerif.Props.C15"
@@ -16,6 +16,7 @@ DRIVERS = ["acq_tiff"]
 THEOREMS = [
     "AcqVerif.C15.C15_roundtrip",
     "AcqVerif.C15.C15_pages",
+    "AcqVerif.C15.C15_description",
     "AcqVerif.C15.C15_chain",
     "AcqVerif.C15.C15_layout_disjoint_in_file",
     "AcqVerif.C15.C15_packet_grouping",
@@ -360,8 +361,7 @@ def evaluate_case(kind, ops, impl):
             bad = tiff_oracle(data, frs, cy["meta"], kind)
             if kind == "tiff-json":
                 m = files.get("p%d.meta" % cy["path"])
-                stale_tail = (cy["path"], "meta") in prefilled
-                if m is None or not (m == cy["meta"] or (stale_tail and m.startswith(cy["meta"]))):
+                if m is None or m != cy["meta"]:
                     bad.append("metadata.json-differs-from-the-users-metadata")
             fails += bad
             produced.append((data, frs, cy["meta"]))
@@ -380,6 +380,7 @@ def run_pair(exe, drv, cases, tag, timeout=900):
     root = os.path.join(SCRATCH, tag)
     os.makedirs(root, exist_ok=True)
     rc_i, impl, err_i = C.run_lines(exe, script, timeout=timeout, args=[root])
+    shutil.rmtree(root, ignore_errors=True)      # scratch files of this batch (the harness removes its case directories)
     rc_m, model, err_m = C.run_lines(drv, script, timeout=timeout)
     impl = [l for l in impl if l != ""]
     mod, labels = [], []
@@ -403,7 +404,9 @@ def check_one(exe, drv, kind, ops, tag="min"):
     res = run_pair(exe, drv, [(kind, ops)], tag, timeout=120)
     out = {"oracle": [], "diff": None, "crash": None}
     if res["rc_i"] != 0:
-        out["crash"] = "exit %s after %d result lines: %s" % (res["rc_i"], len(res["impl"]), res["err_i"][-1200:])
+        key = [l.strip() for l in res["err_i"].split("\n") if "ERROR: AddressSanitizer" in l or "runtime error" in l
+               or l.startswith("SUMMARY") or "TIMEOUT" in l or (l.strip().startswith("#") and "/storage/" in l)]
+        out["crash"] = "exit %s after %d result lines: %s" % (res["rc_i"], len(res["impl"]), " | ".join(key[:6]) or res["err_i"][-600:])
         return out
     impl = res["impl"][1:]
     out["oracle"], _ = evaluate_case(kind, ops, impl)
@@ -506,7 +509,7 @@ def explore(ctx, exe, drv):
                 r1 = check_one(exe, drv, kind, ops)
                 if r1["crash"]:
                     small = minimise(exe, drv, kind, ops, lambda r: r["crash"] is not None)
-                    ctx.violation("crash", "h_tiff:%s:crash" % kind, "real TIFF writer crashed / sanitizer report: %s" % r1["crash"][-600:],
+                    ctx.violation("crash", "h_tiff:%s:crash" % kind, "real TIFF writer crashed / sanitizer report: %s" % r1["crash"][:700],
                                   {"harness": "h_tiff", "kind": kind, "script": small})
                 break
             fails, produced = evaluate_case(kind, ops, impl)
@@ -541,7 +544,10 @@ def explore(ctx, exe, drv):
             if len(samples) < 3 and produced:
                 samples.append({"kind": kind, "ops": [o[:120] for o in ops[:8]], "file_bytes": len(produced[0][0]), "frames": len(produced[0][1])})
         if real_files:
-            nread, bad = read_back(drv, real_files)
+            # the reader works on lists (it is the object of the proofs, not a fast parser): all small files, a few big ones
+            small = [f for f in real_files if len(f[0]) <= 12000]
+            big = [f for f in real_files if len(f[0]) > 12000][:1]
+            nread, bad = read_back(drv, small + big)
             stats["readback"] += nread - len(bad)
             for b in bad[:1]:
                 ctx.corr_broken.append({"what": "the Lean reader (readTiff of the theorems) does not recover the frames from a REAL file", "detail": b})
@@ -568,7 +574,7 @@ def explore(ctx, exe, drv):
 
 
 def run(ctx):
-    ok = regenerate(ctx)
+    regenerate(ctx)
     ctx.prove(MODULE, THEOREMS, extra_targets=DRIVERS)
     ctx.assumptions += [
         "file_write succeeds and writes the whole buffer at the offset (short writes / errors: C14, C16); file_create does not truncate (modelled)",
@@ -578,8 +584,7 @@ def run(ctx):
         "offsets < 2^64 (hypothesis of the theorems: total file size below 2^64)",
         "printf %llu = decimal digits (Nat.toDigits 10)",
     ]
-    if not ok:
-        return
+    # a failing extractor is recorded above; the search for a failing input still runs (with the constants on disk)
     exe, drv = build(ctx)
     if not exe:
         return
